@@ -59,9 +59,9 @@ func runRefProfile(c *core.Ctx, pf *refProfile) {
 		if g != nil && cs.Verdict.Kind == lang.Accept {
 			// the generator's incremental machine and the whole-program run must agree (harness self-check)
 			go1 := g.M.Finish()
-			if go1.Output != cs.Oc.Output || (go1.Err == nil) != (cs.Oc.Err == nil) {
+			if go1.Unspecified == "" && cs.Oc.Unspecified == "" && (go1.Output != cs.Oc.Output || (go1.Err == nil) != (cs.Oc.Err == nil)) {
 				if g.Shapes["inject:duplicate"]+g.Shapes["inject:undefined"] == 0 {
-					c.Inconclusive(fmt.Sprintf("harness: incremental and whole-program reference runs differ for %q", cs.Laid.Src))
+					c.Inconclusive(fmt.Sprintf("harness: incremental and whole-program reference runs differ (case %d): incremental out=%q err=%v unspec=%q; whole out=%q err=%v unspec=%q; source %q", i, core.Trunc(go1.Output, 200), go1.Err, go1.Unspecified, core.Trunc(cs.Oc.Output, 200), cs.Oc.Err, cs.Oc.Unspecified, cs.Laid.Src))
 				}
 			}
 		}
